@@ -26,6 +26,21 @@ static bool readEq(Aut& a, const RTA& s, St universe, vh::Rng* g, std::string& w
 	std::set<St> f(a.GetFinalStates().begin(), a.GetFinalStates().end());
 	if (f != s.fin) { why = "final states differ"; return false; }
 	if (!fullViews) return true;
+	{	// the iterators' == and != agree with each other and with the position (explicit loops use ==)
+		auto b = a.begin(), e = a.end(); size_t n = 0;
+		if ((b == e) != s.rules.empty() || (b != e) == s.rules.empty()) { why = "iterator begin()==end() wrong"; return false; }
+		for (auto it = a.begin(); !(it == e); ++it) { if (!(it != e)) { why = "iterator == and != disagree"; return false; } if (++n > s.rules.size() + 1) break; }
+		if (n != s.rules.size()) { why = "iteration with == yields " + vh::str(n) + " rules, expected " + vh::str(s.rules.size()); return false; }
+		auto at = a.GetAcceptTrans(); size_t na = 0, expA = 0; for (auto& r : s.rules) if (s.fin.count(r.par)) ++expA;
+		auto ae = at.end(); for (auto it = at.begin(); !(it == ae); ++it) { if (!(it != ae)) { why = "accept iterator == and != disagree"; return false; } if (++na > expA + 1) break; }
+		if (na != expA) { why = "GetAcceptTrans iteration with == yields " + vh::str(na) + " rules, expected " + vh::str(expA); return false; }
+		for (St q = 0; q < universe; ++q)
+		{
+			auto acc = a[q]; size_t nd = 0, expD = 0; for (auto& r : s.rules) if (r.par == q) ++expD;
+			auto de = acc.end(); for (auto it = acc.begin(); !(it == de); ++it) { if (!(it != de)) { why = "down iterator == and != disagree"; return false; } if (++nd > expD + 1) break; }
+			if (nd != expD) { why = "operator[] iteration with == yields " + vh::str(nd) + " rules for state " + vh::str(q); return false; }
+		}
+	}
 	for (St q : s.fin) if (!a.IsStateFinal(q)) { why = "IsStateFinal false for a final state"; return false; }
 	for (auto& r : s.rules)
 	{
